@@ -279,7 +279,8 @@ pub fn build(op: u32, nodeid: u64, r: &mut Prng) -> Built {
         26 => {
             // INIT is generated by gen_init (needs protocol-level structure); here: 7.x with flags
             let minor = *r.pick(&[0u64, 3, 4, 5, 22, 23, 31, 35, 36, 38, 40]);
-            b.u32(7);
+            let major = if r.chance(1, 6) { *r.pick(&[0u64, 6, 8, 9, u32::MAX as u64]) } else { 7 };
+            b.u32(major);
             b.u32(minor);
             b.u32(r.field(32));
             let ext = r.chance(1, 2);
@@ -297,7 +298,7 @@ pub fn build(op: u32, nodeid: u64, r: &mut Prng) -> Built {
                 }
             }
             let all: u64 = 0x1fff_ffff | 0x4000_0000 | 0x2_0000_0000 | (1 << 39) | (1 << 63);
-            out.exp = Some(("init".into(), vec![(cap & all).to_string()]));
+            out.exp = if major == 7 { Some(("init".into(), vec![(cap & all).to_string()])) } else { None };
             out.ans = &["want"];
             out.tag = "init";
         }
